@@ -526,9 +526,9 @@ def r5_run_loop(ctx):
     for (t, ks) in skip_tests:
         for b in t.nsucc():
             if b.kind == 'branch' and b.attrs['polarity'] is True:
-                reach = graph.reachable([b], efilter=graph.normal_only, stop=[rr.loop])
+                reach, _ = graph.env_search([b], efilter=graph.normal_only, stop=[rr.loop])
                 bad = [(w, n) for (w, n, c) in sites if any(n is x for x in reach)]
-                wit = graph.must_pass([b], lambda x: x is rr.loop, through=rr.skip_records, efilter=graph.normal_only)
+                _, wit = graph.env_search([b], lambda x: x is rr.loop, efilter=graph.normal_only, avoid=rr.skip_records)
                 ok = not bad and wit is None and any(x is rr.loop for x in reach)
                 rep.ob('C04.R5', ctx.loc(f, t.ast), 'skip branch is effect free', ok,
                        'the skip branch records the part as skipped and continues with the next part; no exec/check site or namespace write on it' if ok else
